@@ -203,6 +203,10 @@ def gen_history(rng, stream: str = "main", max_ops: int = 40) -> Hist:
                     plain = True
         else:
             plain = classes[parents[0]]["plain"]
+            # a non-root class that declares its own class-level discriminator: a dispatcher below a dispatcher
+            if not plain and stream != "kf" and rng.random() < 0.06:
+                config = {"field": kind == "field", "sub": True, "sup": rng.random() < 0.3,
+                          "tagger": use_tagger and rng.random() < 0.6}
         own_tag = None
         ttags = None
         own_req: list[int] = []
@@ -256,11 +260,6 @@ def gen_history(rng, stream: str = "main", max_ops: int = 40) -> Hist:
             if b2 != b:
                 bases.append(b2)
         sub, sup = rng.choice([(True, False), (True, False), (True, True), (True, True), (False, True)])
-        # (X1) a variant with its own Config discriminator is a dispatcher itself (documented: a class-level
-        #      discriminator cannot deserialize the class itself) -> keep such classes out of the eligible set
-        if sup and any(classes[x]["config"] is not None for x in bases):
-            sup = False
-            sub = True
         # (X2) known finding nofield-inherited-unpacker: no-field mode through a nailed holder over plain dataclasses
         if stream != "kf" and kind == "nofield" and wiring != "codec" and any(classes[x]["plain"] for x in bases):
             wiring = "codec"
@@ -421,6 +420,12 @@ def spec_own_tags(ns: dict, c, s: dict) -> list:
     return [c.__dict__[FIELD]] if FIELD in c.__dict__ else []
 
 
+def has_cfg(c) -> bool:
+    """the class itself declares a class-level discriminator (it is a dispatcher over its strict subclasses)"""
+    cfg = c.__dict__.get("Config")
+    return cfg is not None and getattr(cfg, "discriminator", None) is not None
+
+
 def spec_field(ns: dict, n_classes: int, s: dict, inp: dict):
     """-> (expected outcome | None when the property is silent, uniqueness flag | None)"""
     if FIELD not in inp:
@@ -428,6 +433,8 @@ def spec_field(ns: dict, n_classes: int, s: dict, inp: dict):
     t = inp[FIELD]
     car = [c for c in spec_eligible(ns, n_classes, s) if any(t == v for v in spec_own_tags(ns, c, s))]
     if len(car) == 1:
+        if has_cfg(car[0]):          # (X1) = hypothesis plain_carriers of C12_registry: the property is silent
+            return None, True
         return ("inst", car[0].__name__), True
     if not car:
         return ("notfound",), True
@@ -444,6 +451,8 @@ def spec_nofield_check(ns: dict, n_classes: int, s: dict, inp: dict, obs) -> tup
     Also returns (accepting strict subclasses, accepting supertypes)."""
     bases = [ns[f"C{b}"] for b in s["bases"]]
     el = spec_eligible(ns, n_classes, s)
+    if any(has_cfg(c) for c in el):  # (X1) = hypothesis no_nested of C12_nofield: the property is silent
+        return None, [], []
     subs = [c for c in el if any(c is not b and issubclass(c, b) for b in bases) and s["sub"]]
     acc_sub = [c for c in subs if spec_accepts(c, inp)]
     acc_all = [c for c in el if spec_accepts(c, inp)]
@@ -537,7 +546,8 @@ def coq_nats(l) -> str:
 
 def coq_site(s: dict) -> str:
     b = vlib.coq_bool
-    return f"Site {coq_nats(s['bases'])} {b(s['sub'])} {b(s['sup'])} {b(s['field'])} {b(s['tagger'])} {b(s['config'])}"
+    return (f"Site {coq_nats(s['bases'])} {b(s['sub'])} {b(s['sup'])} {b(s['field'])} {b(s['tagger'])} {b(s['config'])} "
+            f"{b(s['wiring'] == 'codec')}")
 
 
 def coq_op(op) -> str:
@@ -656,6 +666,17 @@ def fixed_histories() -> list[Hist]:
     ev = [("define", 0), ("decode", ("config", 0), 0, []), ("define", 1), ("decode", ("config", 0), 2, []), ("define", 2),
           ("define", 3), ("decode", ("config", 0), 3, []), ("decode", ("config", 0), 0, []), ("decode", ("config", 0), 1, [])]
     out.append(build_fixed("field", "mixed", cl, [], ev))
+    # nested class-level dispatchers: own registry per declaring class (and per codec), class-level form never yields itself
+    cl = [dict(config=cfg), dict(parents=[0], own_tag=1, config=cfg, decl="plain"), dict(parents=[1], own_tag=2, decl="plain"),
+          dict(parents=[0], own_tag=3, decl="plain"), dict(parents=[1], own_tag=4, decl="plain")]
+    st = [dict(wiring="codec", bases=[0], sup=True), dict(wiring="holder", bases=[1], sup=True)]
+    ev = [("define", 0), ("define", 1), ("define", 2), ("define", 3), ("site", 0), ("site", 1),
+          ("decode", ("config", 0), 3, []), ("decode", ("config", 1), 3, []), ("decode", ("config", 1), 2, []),
+          ("decode", ("config", 0), 2, []), ("decode", ("config", 0), 1, []), ("decode", ("site", 0), 2, []),
+          ("decode", ("site", 0), 1, []), ("decode", ("site", 1), 1, []), ("decode", ("site", 1), 2, []), ("define", 4),
+          ("decode", ("config", 1), 4, []), ("decode", ("site", 0), 4, []), ("decode", ("site", 1), 4, []),
+          ("decode", ("config", 0), 4, []), ("decode", ("config", 1), 3, [])]
+    out.append(build_fixed("field", "str", cl, st, ev))
     # no-field mode: subclasses before supertypes, walk order, late definitions, diamond
     cl = [dict(own_req=[0]), dict(parents=[0], own_req=[1]), dict(parents=[0], own_req=[2]), dict(parents=[1, 2], own_req=[3]),
           dict(parents=[2], own_req=[])]
@@ -703,7 +724,7 @@ def check_site_ok(ctx: vlib.Ctx):
 
 THEOREMS = ["C12_registry_invariant", "C12_registry", "C12_missing_tag", "C12_history_independent",
             "C12_eligible_exact", "C12_nofield", "C12_trace_event", "C12_tag_unique_decidable",
-            "C12_nonunique_order_dependent"]
+            "C12_nonunique_order_dependent", "C12_class_level_self_excluded"]
 
 
 def make_replay(h: Hist, k: int, what: str, exp: str, obs: str) -> dict:
@@ -723,8 +744,9 @@ def run(ctx: vlib.Ctx):
     ctx.assumptions += [
         "tag uniqueness is required only for the decoded tag among the classes defined before the event (tag_unique); "
         "without it the result depends on the history (C12_nonunique_order_dependent, reproduced on /repo each run)",
-        "(X1) generators keep classes that declare their own Config discriminator out of the eligible sets of other sites "
-        "(such a class is itself a dispatcher over its strict subclasses - README 'class level discriminator')",
+        "(X1) the oracle is silent when the class carrying the tag (no-field: any eligible class) declares its own class-level "
+        "discriminator (plain_carriers / no_nested; such a class is a dispatcher over its strict subclasses - README 'class "
+        "level discriminator', C12_class_level_self_excluded); such histories still take part in the correspondence",
         "(X2) no-field mode through an Annotated holder over plain (non-mixin) dataclasses is generated only in the "
         "known-finding stream (finding C12/nofield-inherited-unpacker)",
         "inputs are mappings with hashable tags (non-mapping / unhashable inputs belong to C05)",
